@@ -202,7 +202,7 @@ func runCase(r *mon.Run, idx int, c encCase) {
 }
 
 func pickBuf(rng *rand.Rand) int {
-	return []int{1 << 15, 4096, 65536, 65537, 100, 200000}[rng.Intn(6)]
+	return []int{1 << 15, 4096, 65536, 65537, 100, 200000, ax.CopyMode, ax.ReadAllMode}[rng.Intn(8)]
 }
 
 func lenClass(n int) string {
